@@ -146,7 +146,17 @@ func init() {
 		// vsymLog(label, x): record a description of a value in the path sample (debug aid)
 		"vsymLog": func(e *Exec, c *frame, fn *ssa.Function, a []Value) Value {
 			if os.Getenv("VERIF_LOG") != "" {
-				fmt.Fprintf(os.Stderr, "vsymLog: %s %s\n", describe(a[0]), describe(a[1]))
+				if st, ok := a[1].(Str); ok && st.b == nil {
+					fmt.Fprintf(os.Stderr, "vsymLog: %s %q\n", e.vsymName(a[0]), st.s)
+				} else if it, ok := a[1].(Iface); ok {
+					if st, ok := it.v.(Str); ok && st.b == nil {
+						fmt.Fprintf(os.Stderr, "vsymLog: %s %q\n", e.vsymName(a[0]), st.s)
+					} else {
+						fmt.Fprintf(os.Stderr, "vsymLog: %s %s\n", e.vsymName(a[0]), describe(it.v))
+					}
+				} else {
+					fmt.Fprintf(os.Stderr, "vsymLog: %s %s\n", e.vsymName(a[0]), describe(a[1]))
+				}
 			}
 			return nil
 		},
